@@ -5,6 +5,7 @@
 -/
 import H5.Model.OptionalTags
 import H5.Proofs.ExceptLemmas
+import H5.Spec.OptionalTags
 namespace H5.Props.C13
 open H5 H5.Gen H5.Model.OptionalTags
 
@@ -154,6 +155,55 @@ theorem C13_total (ts : List Tok) : ∃ out, filter ts = .ok out := by
     obtain ⟨k, hk⟩ := keep_total p t x
     obtain ⟨o, ho⟩ := ih
     exact ⟨if k then t :: o else o, by simp [filterW, hk, ho]⟩
+
+
+/-! ### position clause: the rules agree with the HTML syntax's "optional tags" section -/
+
+open H5.Spec.OptionalTags in
+/-- deviations of the pinned rules from the 2020 syntax that are recorded as findings (each a specific window) -/
+def knownDevEnd (n : Str) (x : Option Tok) : Bool :=
+  (n = [112] && (nextStartIn x [[100, 97, 116, 97, 103, 114, 105, 100], [100, 105, 97, 108, 111, 103], [100, 105, 114]] || (noMoreContent x && !parentAllowsPOmission x))) ||
+  (n = [116, 102, 111, 111, 116] && (match x with | some (.startTag _ m _) => m = [116, 98, 111, 100, 121] | _ => false))
+
+def knownDevStart (n : Str) (x : Option Tok) : Bool :=
+  n = [98, 111, 100, 121] && (match x with
+    | some (.startTag _ m _) => [[109, 101, 116, 97], [108, 105, 110, 107], [116, 101, 109, 112, 108, 97, 116, 101]].elem m
+    | some (.emptyTag _ m _) => [[109, 101, 116, 97], [108, 105, 110, 107], [115, 99, 114, 105, 112, 116], [115, 116, 121, 108, 101], [116, 101, 109, 112, 108, 97, 116, 101]].elem m
+    | _ => false)
+
+open H5.Spec.OptionalTags in
+/-- **C13 (position, end tags).** whenever the rule function allows an end tag to be omitted, the HTML syntax allows
+it in that position — except in the recorded windows `knownDevEnd`. For every name and every next token. -/
+theorem C13_position_end (n : Str) (x : Option Tok) (h : isOptionalEnd n x = .ok true) :
+    mayOmitEnd n x = true ∨ knownDevEnd n x = true := by
+  have hn := C13_end_names n x h
+  simp only [endNames, List.mem_cons, List.not_mem_nil, or_false] at hn
+  rcases hn with rfl | rfl | rfl | rfl | rfl | rfl | rfl | rfl | rfl | rfl | rfl | rfl | rfl | rfl | rfl | rfl | rfl | rfl <;>
+    (rcases x with _ | x
+     · revert h; decide
+     · cases x <;>
+         simp [isOptionalEnd, mayOmitEnd, knownDevEnd, otokType, otokName, Tok.typeName, Tok.nameE, nextStartIn,
+           nextIsComment, nextIsSpaceOrComment, noMoreContent, parentAllowsPOmission, pFollowers] at h ⊢ <;>
+         (try (rcases h with h | h | h | h | h | h | h | h | h | h | h | h | h | h | h | h | h | h | h | h | h | h | h | h | h | h | h | h <;> simp [h])) <;>
+         (try simp_all) <;> (try grind))
+
+open H5.Spec.OptionalTags in
+/-- **C13 (position, start tags).** -/
+theorem C13_position_start (n : Str) (p x : Option Tok) (h : isOptionalStart n p x = .ok true) :
+    mayOmitStart n x = true ∨ knownDevStart n x = true := by
+  have hn := C13_start_names n p x h
+  simp only [startNames, List.mem_cons, List.not_mem_nil, or_false] at hn
+  rcases hn with rfl | rfl | rfl | rfl | rfl <;>
+    (rcases x with _ | x
+     · revert h; simp [isOptionalStart, mayOmitStart, otokType, nextIsComment, nextIsElement, noMoreContent,
+         nextIsSpaceOrComment, nextStartIn]
+     · cases x <;>
+         simp [isOptionalStart, mayOmitStart, knownDevStart, otokType, otokName, Tok.typeName, Tok.nameE, nextStartIn,
+           nextIsComment, nextIsElement, nextIsSpaceOrComment, noMoreContent] at h ⊢ <;>
+         (try simp_all) <;> (try grind) <;>
+         (rcases p with _ | pt
+          · simp at h; exact h
+          · cases pt <;> simp [otokTypeE, Tok.typeName] at h <;> first | exact h | (split at h <;> simp_all)))
 
 /-- non-vacuity: a concrete stream on which tokens are removed and kept -/
 example : filter [.startTag none [104,116,109,108] [], .startTag none [112] [], .chars [120],
